@@ -74,7 +74,15 @@ def script_for_exps(ctx, values, rng, pad=64):
     return hexb(out + rng.randbytes(pad))
 
 
-LABEL_POOL = ["x:", "x:616263", "x:2070616464656420200a", "x:fffe80c328", "x:62616c6c6f740d0a", "x:00", "x:" + "5a" * 65, "x:" + "c3a9" * 70]
+LABEL_POOL = ["x:", "x:616263", "x:2070616464656420200a", "x:fffe80c328", "x:62616c6c6f740d0a", "x:00", "x:" + "5a" * 65, "x:" + "c3a9" * 70,
+              "x:" + "41" * 64, "x:" + "42" * 128, "x:" + "43" * 32]
+# label lengths at which a "hash long labels" / "fixed buffer" shortcut would switch behaviour (exactly at, one below, one above)
+BOUNDARY_LABEL_LENGTHS = [31, 32, 33, 63, 64, 65, 127, 128, 129, 255, 256, 257, 1023, 1024, 1025, 4095, 4096, 4097]
+
+
+def boundary_labels(quick=True):
+    ls = BOUNDARY_LABEL_LENGTHS if not quick else [32, 63, 64, 65, 128, 256, 1024, 4096]
+    return ["x:" + bytes((7 * i + n) % 251 for i in range(n)).hex() for n in ls]
 
 
 def label_pool(rng, k):
